@@ -23,7 +23,10 @@ import (
 	"net/url"
 	"regexp"
 	"slices"
+	"strconv"
 	"strings"
+
+	"github.com/bmatcuk/doublestar/v4"
 )
 
 type registration struct {
@@ -89,7 +92,7 @@ func split(s string) parts {
 			auth = auth[i+1:]
 		}
 		if strings.HasPrefix(auth, "[") {
-			if j := strings.IndexByte(auth, ']'); j >= 0 {
+			if j := strings.IndexByte(auth, ']'); j >= 0 && (auth[j+1:] == "" || auth[j+1] == ':') {
 				p.host = auth[1:j]
 				if rest := auth[j+1:]; strings.HasPrefix(rest, ":") {
 					p.port = rest[1:]
@@ -107,30 +110,88 @@ func split(s string) parts {
 	return p
 }
 
-var shortV4 = regexp.MustCompile(`^127(\.[0-9]{1,3}){1,3}$`)
-
-// loopbackHost: strict = spelled the usual way; loose = anything a user agent
-// could resolve to the loopback interface.
+// loopbackHost decides "a loopback address" for a host as spelled in a URI.
+//
+//	strict (MUST be accepted as loopback): exactly localhost, 127.0.0.1, ::1
+//	loose  (MAY be accepted; the statement is silent): every other spelling a user agent
+//	       could take to the loopback interface — other case, a trailing dot, names below
+//	       localhost (RFC 6761), percent-encoded letters, every other address of 127.0.0.0/8
+//	       in any inet_aton notation (127.1, 2130706433, 0x7f.0.0.1, 0177.0.0.1), other
+//	       spellings of ::1 (expanded, zone), IPv4-mapped loopback.
+//	neither ⇒ a request for it MUST be refused however close the name looks
+//	       (notlocalhost, localhost.evil.example, evil-localhost, 128.0.0.1, ::2).
 func loopbackHost(h string) (strict, loose bool) {
-	if h == "localhost" {
+	if h == "localhost" || h == "127.0.0.1" || h == "::1" {
 		return true, true
 	}
-	if strings.EqualFold(h, "localhost") || strings.EqualFold(h, "localhost.") {
-		return false, true
+	n := strings.ToLower(pctDecode(h))
+	if z := strings.IndexByte(n, '%'); z >= 0 && strings.Contains(n, ":") {
+		n = n[:z] // IPv6 zone
 	}
-	if a, err := netip.ParseAddr(h); err == nil {
-		if a.IsLoopback() {
-			return true, true
-		}
-		if a.Is4In6() && a.Unmap().IsLoopback() {
-			return false, true
+	if strings.Contains(n, ":") {
+		if a, err := netip.ParseAddr(n); err == nil {
+			return false, a.IsLoopback() || (a.Is4In6() && a.Unmap().IsLoopback())
 		}
 		return false, false
 	}
-	if shortV4.MatchString(h) {
+	n = strings.TrimSuffix(n, ".")
+	if n == "localhost" || strings.HasSuffix(n, ".localhost") {
 		return false, true
 	}
+	if v, ok := inetAton(n); ok {
+		return false, v>>24 == 127
+	}
 	return false, false
+}
+
+// inetAton: the classic BSD parser (1–4 parts, decimal / 0x hex / 0 octal, the last part
+// fills the remaining bytes) that browsers apply to host names that look numeric.
+func inetAton(s string) (uint32, bool) {
+	ps := strings.Split(s, ".")
+	if len(ps) == 0 || len(ps) > 4 {
+		return 0, false
+	}
+	var val uint64
+	for i, p := range ps {
+		if p == "" {
+			return 0, false
+		}
+		base := 10
+		switch {
+		case strings.HasPrefix(p, "0x"):
+			base, p = 16, p[2:]
+			if p == "" {
+				return 0, false
+			}
+		case len(p) > 1 && p[0] == '0':
+			base, p = 8, p[1:]
+		}
+		n, err := strconv.ParseUint(p, base, 64)
+		if err != nil {
+			return 0, false
+		}
+		if i < len(ps)-1 {
+			if n > 255 {
+				return 0, false
+			}
+			val |= n << (8 * uint(3-i))
+		} else {
+			if n >= 1<<(8*uint(4-i)) {
+				return 0, false
+			}
+			val |= n
+		}
+	}
+	return uint32(val), true
+}
+
+// usablePort: absent or 1..65535 without padding (anything else: open)
+func usablePort(p string) bool {
+	if p == "" {
+		return true
+	}
+	n, err := strconv.Atoi(p)
+	return err == nil && n >= 1 && n <= 65535 && p[0] != '0' && p[0] != '+'
 }
 
 func (p parts) httpLoopback() (strict, loose bool) {
@@ -196,6 +257,17 @@ func starMatch(p, s string) bool {
 	return s != "" && p[0] == s[0] && starMatch(p[1:], s[1:])
 }
 
+// readAsPattern only NAMES the violation class (signature component) of a URI that is not
+// allowed: it matches an exactly registered string when that string is read as a glob.
+// The library's own matcher may be used for that — the verdict never depends on it.
+func readAsPattern(registered, uri string) bool {
+	if !strings.ContainsAny(registered, "*?[{\\") {
+		return false
+	}
+	ok, err := doublestar.Match(registered, uri)
+	return err == nil && ok
+}
+
 // ---- the predicate -----------------------------------------------------------
 
 func judge(c *registration, uri, rt string) verdict {
@@ -225,10 +297,12 @@ func judge(c *registration, uri, rt string) verdict {
 				continue
 			}
 			samePQ := pctDecode(u.path) == pctDecode(rp.path) && u.query == rp.query
-			sameUF := u.userinfo == rp.userinfo && u.hasUser == rp.hasUser && u.fragment == rp.fragment && u.hasFrag == rp.hasFrag
+			// an EMPTY userinfo or fragment ("http://@localhost/cb", ".../cb#") names the same resource: open (Either)
+			sameUF := u.userinfo == rp.userinfo && u.fragment == rp.fragment
+			sameDelims := u.hasUser == rp.hasUser && u.hasFrag == rp.hasFrag && u.hasQuery == rp.hasQuery
 			if samePQ && sameUF {
 				how = "loopback-variant"
-				strictMatch = uStrictLoop && rStrict && u.path == rp.path && u.hasQuery == rp.hasQuery && u.rawScheme == u.scheme
+				strictMatch = uStrictLoop && rStrict && u.path == rp.path && sameDelims && u.rawScheme == u.scheme && usablePort(u.port)
 				break
 			}
 			if samePQ {
@@ -240,6 +314,8 @@ func judge(c *registration, uri, rt string) verdict {
 		switch {
 		case extraComponent:
 			return verdict{class: "loopback-differs-in-userinfo-or-fragment"}
+		case slices.ContainsFunc(c.R, func(r string) bool { return readAsPattern(r, uri) }):
+			return verdict{class: "exact-registration-read-as-pattern"}
 		case c.useGlobs && slices.ContainsFunc(c.G, malformedOrUnsupported):
 			return verdict{class: "unregistered-with-malformed-glob"}
 		case !c.useGlobs && slices.ContainsFunc(c.G, func(g string) bool { return globMatch(g, uri) }):
@@ -248,6 +324,10 @@ func judge(c *registration, uri, rt string) verdict {
 		return verdict{class: "unregistered"}
 	}
 
+	// the must-serve baseline is limited to strings a generic URI parser accepts
+	if _, err := url.Parse(uri); err != nil {
+		strictMatch = false
+	}
 	canonicalScheme := u.rawScheme == u.scheme
 	switch u.scheme {
 	case "https":
@@ -299,7 +379,17 @@ func sameTarget(target, cand string) bool {
 	t, err1 := url.Parse(target)
 	c, err2 := url.Parse(cand)
 	if err1 != nil || err2 != nil {
-		return false
+		// a string Go's parser refuses (e.g. an escaped host): the target is the requested
+		// string itself, or that string followed by response parameters
+		if target == cand {
+			return true
+		}
+		rest, ok := strings.CutPrefix(target, cand)
+		if !ok || rest == "" || !strings.ContainsRune("?&#", rune(rest[0])) {
+			return false
+		}
+		v, err := url.ParseQuery(rest[1:])
+		return err == nil && onlyResponseParams(v)
 	}
 	if !strings.EqualFold(t.Scheme, c.Scheme) || t.Host != c.Host || t.Opaque != c.Opaque || t.Path != c.Path {
 		return false
